@@ -31,6 +31,7 @@ type Wire struct {
 	wclosed   bool
 	rclosed   bool
 	Writes    []int // size of every Write call
+	waiting   bool  // a reader is blocked in read()
 }
 
 func NewWire() *Wire {
@@ -78,6 +79,9 @@ func (w *Wire) push(b []byte) error {
 	return nil
 }
 
+// Push is the exported form of a sender-side write.
+func (w *Wire) Push(b []byte) error { return w.push(b) }
+
 // Inject makes bytes readable by the receiver without a sender.
 func (w *Wire) Inject(b []byte) {
 	w.mu.Lock()
@@ -120,7 +124,9 @@ func (w *Wire) read(p []byte) (int, error) {
 		if w.wclosed {
 			return 0, io.EOF
 		}
+		w.waiting = true
 		w.cond.Wait()
+		w.waiting = false
 	}
 	n := len(p)
 	if n > len(w.out) {
@@ -139,6 +145,23 @@ func (w *Wire) read(p []byte) (int, error) {
 	w.out = w.out[n:]
 	w.nread++
 	return n, nil
+}
+
+// ReaderIdle reports that the receiving endpoint is blocked in Read with nothing left to read.
+func (w *Wire) ReaderIdle() bool {
+	w.mu.Lock()
+	defer w.mu.Unlock()
+	return w.waiting && len(w.out) == 0
+}
+
+// Drain takes everything currently readable without blocking (used by a scripted peer).
+func (w *Wire) Drain() []byte {
+	w.mu.Lock()
+	defer w.mu.Unlock()
+	b := w.out
+	w.out = nil
+	w.Delivered = append(w.Delivered, b...)
+	return b
 }
 
 // Snapshot returns copies of the sender-side record log.
